@@ -299,3 +299,28 @@ def replay(case) -> List[Violation]:
     scratch = harness.enter_scratch()
     v, _ = judge(tuple(case["prog"]), scratch, 2)
     return [Violation(s, m, c) for s, m, c in v if c.get("part") == case.get("part")]
+
+
+# ---------------------------------------------------------------------------------------------
+# environment grid (mc/envgrid.py): what inspection says and whether it is true of the run do not depend on the process
+
+def env_cases(tier: str):
+    from mc import envgrid
+    from mc.props.c06 import ENV_MANY_KEYS
+
+    return [{"prog": list(p), "extras": e} for p, e in envgrid.pick(program_set("quick"), 40 if tier == "quick" else 300)] + \
+           [{"prog": list(p), "extras": 1} for p in TWO_WRITERS[:6]] + [{"prog": list(p), "extras": 1} for p in ENV_MANY_KEYS]
+
+
+def env_observe(case):
+    from mc import envgrid
+
+    scratch = envgrid.scratch()
+    prog = tuple(case["prog"])
+    insp, err, cfg = inspect_prog(prog)
+    facts = [{"created": sorted(getattr(n, "created_keys", []) or []), "suppressed": sorted(getattr(n, "suppressed_keys", []) or []),
+              "required": sorted(getattr(n, "required_context_keys", []) or []), "errors": [str(e)[:120] for e in (getattr(n, "errors", []) or [])]}
+             for n in insp.nodes]
+    v, info = judge(prog, scratch, case["extras"])
+    return envgrid.norm({"inspection_error": err, "required": sorted(insp.required_context_keys), "facts": facts,
+                         "judged": sorted({sig for sig, _, _ in v}), "accepted": info["accepted"], "runs": info["runs"]}, scratch)
